@@ -85,6 +85,8 @@ TCancel == IsEvent("Cancel") /\ Run /\ CancelSock(Ev.s)
 TCancelAcc == IsEvent("CancelAcc") /\ Run /\ CancelAcceptor(Ev.l)
 \* a user handler threw: the exception left run(); nothing further is required of this run
 TThrow == IsEvent("Throw") /\ Run /\ UNCHANGED tvars0
+\* a UDP datagram of the side traffic on its first hop (only the capture looks at it: TracePcap)
+TWireU == IsEvent("WireU") /\ Run /\ UNCHANGED tvars0
 \* the socket object was move-constructed into a new one and the source destroyed: the socket (by name) carries on
 TMove == IsEvent("Move") /\ Run /\ sk[Ev.s].rd = None /\ sk[Ev.s].wr = None /\ UNCHANGED tvars0
 TEndThrown == /\ IsEvent("EndThrown") /\ phase = "run" /\ phase' = "idle" /\ keeps' = {} /\ UNCHANGED <<tvars0, rt, wt>>
@@ -122,7 +124,7 @@ Diag == [l |-> l, owed |-> ~NothingOwed, connects |-> ~ConnectsComplete,
                          wr |-> (sk[Sender(k)].wr # None /\ InFlight(k) = {}),
                          lost |-> Cardinality(Lost(k)), undeliv |-> st[k].wire - st[k].deliv]
                       ELSE [conn |-> k[1], dir |-> k[2], rd |-> FALSE, wr |-> FALSE, lost |-> 0, undeliv |-> 0]]]
-TNext == TDropSyn \/ TMove \/ TBindAcc \/ TCancel \/ TCancelAcc \/ TThrow \/ TEndThrown \/ TEndLoose \/ TCfg \/ TAdv \/ TListen \/ TCloseAcc \/ TAccept \/ TConnect \/ TWire \/ TArrive \/ TDrop \/ TWrite
+TNext == TWireU \/ TDropSyn \/ TMove \/ TBindAcc \/ TCancel \/ TCancelAcc \/ TThrow \/ TEndThrown \/ TEndLoose \/ TCfg \/ TAdv \/ TListen \/ TCloseAcc \/ TAccept \/ TConnect \/ TWire \/ TArrive \/ TDrop \/ TWrite
          \/ TWriteDone \/ TRead \/ TReadDone \/ TReady \/ TReadSome \/ TClose \/ TConnectDone \/ TAcceptDone
          \/ TPending \/ TEnd
 TSpec == TInit /\ [][TNext]_tvars
